@@ -102,7 +102,14 @@ func vfRange(name string, lo, hi int) int {
 
 func vfBytes(name string, n int) []byte {
 	base := vfName(name)
-	b := make([]byte, n)
+	// reproduce the recorded alignment of the array's address (mod 16) if the model has one
+	raw := make([]byte, n+32)
+	off := 0
+	if a, ok := vfC.Model[base+".addr"]; ok {
+		cur := uint64(uintptr(unsafe.Pointer(&raw[0])))
+		off = int((a%16 + 16 - cur%16) % 16)
+	}
+	b := raw[off : off+n : off+n]
 	for i := range b {
 		b[i] = byte(vfC.Model[fmt.Sprintf("%s_%d", base, i)])
 	}
@@ -352,8 +359,23 @@ func vfAddr(b []byte) uint64 {
 	return uint64(uintptr(unsafe.Pointer(unsafe.SliceData(b))))
 }
 
-func vfSameArray(a, b []byte) bool { return true }
-func vfOff(b []byte) uint64        { return 0 }
+// vfSameArray: does a lie inside b's backing array (or b inside a's)?
+func vfSameArray(a, b []byte) bool {
+	if cap(a) == 0 || cap(b) == 0 {
+		return false
+	}
+	pa, pb := uintptr(unsafe.Pointer(unsafe.SliceData(a))), uintptr(unsafe.Pointer(unsafe.SliceData(b)))
+	return (pa >= pb && pa <= pb+uintptr(cap(b))) || (pb >= pa && pb <= pa+uintptr(cap(a)))
+}
+
+// vfOff: natively the absolute address; harnesses only use differences of offsets of slices of the
+// same array, and comparisons between such offsets.
+func vfOff(b []byte) uint64 {
+	if cap(b) == 0 {
+		return 0
+	}
+	return uint64(uintptr(unsafe.Pointer(unsafe.SliceData(b))))
+}
 func vfPreempts() int              { return 0 }
 func vfThreadsBlocked() int        { return 0 }
 func vfThreadsLive() int           { return 0 }
@@ -371,6 +393,14 @@ func vfTime(name string) time.Time {
 		d := time.Duration(sec-int64(s0))*time.Second + time.Duration(nsec-int64(vfC.Model["v_now1.nsec"]))
 		return vfNowBase.Add(d)
 	}
+	return time.Unix(sec-vfUnixToInternal, nsec)
+}
+
+// vfTimeAbs: the recorded instant itself (no re-basing on the real clock): for harnesses that do
+// not compare it with time.Now().
+func vfTimeAbs(name string) time.Time {
+	sec := int64(vfC.Model[vfName(name+".sec")])
+	nsec := int64(vfC.Model[vfName(name+".nsec")])
 	return time.Unix(sec-vfUnixToInternal, nsec)
 }
 
